@@ -160,6 +160,41 @@ IV_WORDS = {'zuc_eea3_iv_gen': {'count'}, 'zuc_eia3_iv_gen': {'count'}, 'snow3g_
             'snow3g_f9_iv_gen': {'count', 'fresh'}, 'kasumi_f8_iv_gen': {'count'}, 'kasumi_f9_iv_gen': {'count', 'fresh'}}
 
 
+IV_XOR = {'zuc_eia3_iv_gen', 'snow3g_f9_iv_gen'}      # generators whose direction bit is XOR-ed onto counter / fresh words
+
+
+def _dir_combiners(f):
+    """operators that combine a value derived from the direction parameter (the parameter itself, shifted, or a local initialised from it)
+    with anything else"""
+    dirs = {p['name'] for p in (f.raw.get('params') or []) if p['name'].startswith('dir')}
+    for _, _, ev in f.events(('decl',)):
+        for d in ev['d']:
+            if d.get('init') is not None and any(nd.get('k') == 'ref' and nd['n'] in dirs for nd in cf.walk(d['init'])):
+                dirs.add(d['n'])
+
+    def derived(e):
+        e = cf.strip_casts(e)
+        if not isinstance(e, dict):
+            return False
+        if e.get('k') == 'ref':
+            return e['n'] in dirs
+        if e.get('k') == 'bin' and e['op'] in ('<<', '>>'):
+            return derived(e['l'])
+        if e.get('k') == 'cond':
+            return derived(e.get('c') or {})
+        return False
+    ops = set()
+    for _, _, ev in f.events(('assign', 'decl')):
+        exprs = [ev.get('rhs')] if ev['k'] == 'assign' else [d.get('init') for d in ev['d']]
+        if ev['k'] == 'assign' and ev.get('op') not in (None, '=') and derived(ev.get('rhs') or {}):
+            ops.add(ev['op'])
+        for x in exprs:
+            for nd in cf.walk(x or {}):
+                if nd.get('k') == 'bin' and nd['op'] in ('|', '^', '+', '&', '-') and (derived(nd['l']) != derived(nd['r'])):
+                    ops.add(nd['op'])
+    return ops
+
+
 def _iv_shifts(f):
     import collections
     params = {p['name'] for p in (f.raw.get('params') or [])}
@@ -208,6 +243,11 @@ def run_h7(chk, P):
         f = fs[0]
         shifts, words = _iv_shifts(f)
         got = {k: v for k, v in shifts.items()}
+        if fn in IV_XOR:
+            bad_ops = _dir_combiners(f) - {'^', '^='}
+            h7.check(not bad_ops, fn + ':xor', f.loc,
+                     '%s combines the direction bit with %s; TS 35.215 / 35.221 define these IV words as DIRECTION XOR COUNT / FRESH '
+                     '(an OR sets the bit where the XOR must toggle it when the counter bit is already 1)' % (fn, sorted(bad_ops)))
         h7.check(got == spec and IV_WORDS[fn] <= words, fn, f.loc,
                  '%s shifts %s and byte-swaps %s; the specification places %s and needs %s whole' % (
                      fn, sorted(got.items()), sorted(words), sorted(spec.items()), sorted(IV_WORDS[fn])))
